@@ -63,6 +63,21 @@ def judge_listing(ctx, ws, text, origin, elf_bytes=None):
         small = {"origin": origin, "listing": "\n".join(x.raw for x in rinsts[max(0, n - 2):n + 3]) + "\n"} if kind != "undecodable" and n >= 0 else case
         ctx.disagreement(small, f"{kind}: {msg}", classify_line(rinsts[n].raw) if 0 <= n < len(rinsts) else None)
         return
+    # the same listing under a rule that configures valid_addr_range (adds an observer): lines -> records must be unchanged
+    lo, hi = ctx.rng.choice([("0", "ffffffffffffffff"), ("0x400000", "0x4fffff"), ("1000", "1000")])
+    r2 = objd.real_stream(ws, p, rule_text=f"config:\n  valid_addr_range:\n    min: '{lo}'\n    max: '{hi}'\npattern:\n  - zzzzzz\n")
+    ctx.ran()
+    if r2[0] != "ok":
+        # an indirect/odd operand of a jump mnemonic may not parse as an address: judged by C18, not here
+        ctx.event("range_run_raised:" + r2[1])
+    else:
+        probs2, _, dec2 = objd.compare_stream(r2[1], text)
+        ctx.event("listings_compared_with_range_observer")
+        if probs2:
+            kind, n, msg = probs2[0]
+            ctx.disagreement(case if n < 0 else {"origin": origin, "range": [lo, hi], "listing": "\n".join(x.raw for x in rinsts[max(0, n - 3):n + 3]) + "\n"},
+                             f"with valid_addr_range configured: {kind}: {msg}")
+            return
     ctx.sample("objdump-listing", {"origin": origin, "first_lines": text[:500], "records": len(dec), "first_records": [list(map(str, d)) for d in dec[:3]]})
 
 
